@@ -182,7 +182,7 @@ func OracleC09(c *mc.Ctx, b *Built) {
 
 // FamiliesC09: what is enumerated for C09.
 func FamiliesC09(tier string) []world.Family {
-	l1Len, fullLen := 7, 7
+	l1Len, fullLen := 8, 7
 	if tier == "thorough" {
 		l1Len, fullLen = 9, 8
 	}
